@@ -284,6 +284,9 @@ def write_walks(path, inst, graph, walks, control=None, evkinds=None):
         inst = dict(inst)
         if evkinds is not None:
             inst['evkinds'] = evkinds
+        # constant fields a contract reports about itself; a mismatch in the initial state is reported once and
+        # masked, so that the walks still run for the properties that do not own those fields
+        inst['init_soft'] = ['idcheck', 'wiring', 'meta']
         f.write(json.dumps(inst) + '\n')
         init = graph.nodes[graph.find_init()]
         for wi, w in enumerate(walks):
